@@ -289,6 +289,52 @@ bool fake_upump_advance(struct upump_mgr *mgr)
 void fake_upump_sleep(struct upump_mgr *mgr, uint64_t delta) { fake_mgr_from_upump_mgr(mgr)->now += delta; }
 uint64_t fake_upump_now(struct upump_mgr *mgr) { return fake_mgr_from_upump_mgr(mgr)->now; }
 
+/* ---- explicit firing of harness-owned source pumps (added for harness/pipes_hold.c) ---- */
+bool fake_upump_pump_active(struct upump *upump)
+{
+    struct fake_pump *fp = fake_pump_from_upump(upump);
+    return fp->active && fp->common.started && ulist_empty(&fp->common.blockers);
+}
+
+int fake_upump_pump_blockers(struct upump *upump)
+{
+    struct fake_pump *fp = fake_pump_from_upump(upump);
+    int n = 0; struct uchain *uchain;
+    ulist_foreach (&fp->common.blockers, uchain) n++;
+    return n;
+}
+
+bool fake_upump_fire(struct upump *upump)
+{
+    if (!fake_upump_pump_active(upump)) return false;
+    struct fake_pump *fp = fake_pump_from_upump(upump);
+    struct upump_mgr *mgr = upump->mgr;
+    struct fake_mgr *fm = fake_mgr_from_upump_mgr(mgr);
+    if (fp->event == UPUMP_TYPE_TIMER) {
+        if (fp->repeat) fp->deadline = fm->now + fp->repeat;
+        else fp->active = false;
+    }
+    struct upump_mgr *saved = current_loop;
+    current_loop = mgr;
+    upump_mgr_use(mgr);
+    upump_common_dispatch(upump);
+    upump_mgr_release(mgr);
+    current_loop = saved;
+    return true;
+}
+
+int fake_upump_timers(struct upump_mgr *mgr, uint64_t *earliest_p)
+{
+    struct fake_mgr *fm = fake_mgr_from_upump_mgr(mgr);
+    uint64_t best = UINT64_MAX; int n = 0; struct uchain *uchain;
+    ulist_foreach (&fm->pumps, uchain) {
+        struct fake_pump *fp = fake_pump_from_uchain(uchain);
+        if (fp->active && fp->event == UPUMP_TYPE_TIMER) { n++; if (fp->deadline < best) best = fp->deadline; }
+    }
+    if (earliest_p) *earliest_p = best;
+    return n;
+}
+
 /* ---- fake clock ---- */
 struct fake_uclock {
     struct urefcount urefcount;
